@@ -329,6 +329,9 @@ pub fn classify(
     blast: &BTreeSet<i64>,
     in_window: bool,
     partial_retire: bool,
+    // buffered WAL (weak crash clause): events whose WAL line may still sit in the writer's
+    // user-space buffer, with the shard of each; they may be lost, but only as a per-shard suffix
+    may_be_lost: &BTreeMap<i64, usize>,
 ) -> Result<BTreeSet<String>, String> {
     let mut tags = BTreeSet::new();
     let vis = |m: &Model, k: i64| if after_restart { m.visible_after_restart(k) } else { m.visible_now(k) };
@@ -366,6 +369,10 @@ pub fn classify(
             allowed.extend(extra);
             allowed.insert(0);
         }
+        let buffered_loss_ok = may_be_lost.contains_key(&e.k);
+        if buffered_loss_ok {
+            allowed.insert(0);
+        }
         if partial_retire {
             // a compaction round has committed the batch of one event type and not yet reclaimed
             // its inputs: after a restart the drained inputs are read again for that type
@@ -379,7 +386,7 @@ pub fn classify(
         if !ok {
             return Err(format!("k={} visible {got} times; model allows {allowed:?}", e.k));
         }
-        if got == 0 && !is_inflight {
+        if got == 0 && !is_inflight && !buffered_loss_ok {
             tags.insert(if in_window && cands.iter().all(|m| vis(m, e.k) > 0) { "KF-orphan-dir".to_string() } else { "KF-P1-wal-unlinked".to_string() });
         }
         if got > 1 {
@@ -396,8 +403,26 @@ pub fn classify(
         if rgot > 1 {
             tags.insert(if in_window { "KF-window-dup".to_string() } else if partial_retire { "KF-partial-retire-dup".to_string() } else { "KF-stale-wal-dup".to_string() });
         }
-        if rgot == 0 && !is_inflight {
+        if rgot == 0 && !is_inflight && !buffered_loss_ok {
             tags.insert(if in_window && cands.iter().all(|m| vis(m, e.k) > 0) { "KF-orphan-dir".to_string() } else { "KF-P1-wal-unlinked".to_string() });
+        }
+    }
+    // weak crash clause of a buffered WAL: what survives is a per-shard prefix of what was applied
+    if !may_be_lost.is_empty() && !in_window {
+        let mut gone: BTreeMap<usize, i64> = BTreeMap::new();
+        let mut ks: Vec<(&i64, &usize)> = may_be_lost.iter().collect();
+        ks.sort();
+        for (k, shard) in ks {
+            // events the protocol model already expects to be lost (listed WAL-id drift) are not part of the prefix argument
+            if !cands.iter().all(|m| vis(m, *k) > 0) {
+                continue;
+            }
+            let got = qm.get(k).copied().unwrap_or(0);
+            if got == 0 {
+                gone.entry(*shard).or_insert(*k);
+            } else if let Some(first) = gone.get(shard) {
+                return Err(format!("buffered WAL: k={k} survived the crash although the earlier k={first} of the same shard did not (not a prefix)"));
+            }
         }
     }
     for (k, n) in &qm {
@@ -433,7 +458,8 @@ pub fn classify(
         if got > spec + inflight.map_or(0, |e| (e.typ == t) as usize) {
             tags.insert(if in_window { "KF-window-dup".to_string() } else if partial_retire { "KF-partial-retire-dup".to_string() } else { "KF-stale-wal-dup".to_string() });
         }
-        if got < spec {
+        let lost_by_buffer = events.iter().filter(|e| e.typ == t && may_be_lost.contains_key(&e.k) && qm.get(&e.k).copied().unwrap_or(0) == 0).count();
+        if got + lost_by_buffer < spec {
             tags.insert(if in_window { "KF-orphan-dir".to_string() } else { "KF-P1-wal-unlinked".to_string() });
         }
     }
@@ -455,6 +481,9 @@ pub struct Stats {
     pub monitor_checks: u64,
     pub outcomes: BTreeSet<String>,
     pub machinery: Vec<String>,
+    /// buffered-WAL crash points at which applied events were lost as a per-shard suffix (allowed)
+    pub buffered_suffix_losses: usize,
+    pub buffered_recoveries: usize,
 }
 
 /// Protocol phase of a crash point: for every shard the last flush/compaction
@@ -576,7 +605,7 @@ pub fn run_history(
             drop(st);
             if !d.is_empty() {
                 let st = &states[li][*opi];
-                let (known, violation) = match classify(&o, expect, None, &[&st.pre], false, &BTreeSet::new(), false, false) {
+                let (known, violation) = match classify(&o, expect, None, &[&st.pre], false, &BTreeSet::new(), false, false, &BTreeMap::new()) {
                     Ok(t) => (t.into_iter().collect(), None),
                     Err(e) => (vec![], Some(e)),
                 };
@@ -656,7 +685,13 @@ pub fn run_history(
                 snap: SnapMode::Off,
                 fsmon: true,
             }];
-            stats.lock().unwrap().recoveries += 1;
+            {
+                let mut st = stats.lock().unwrap();
+                st.recoveries += 1;
+                if cfg.wal_buffered {
+                    st.buffered_recoveries += 1;
+                }
+            }
             match run_lifetimes(&rdir, cfg, 7 + 1000 * (li as u64 + 1), &rec, false) {
                 Ok(rr) => {
                     let r0 = &rr[0];
@@ -686,8 +721,24 @@ pub fn run_history(
                             let _ = phase;
                             let in_window = !orphan_dirs.is_empty();
                             let partial = partially_committed_round(last, s.seq);
-                            match classify(&o, acked, inflight.as_ref(), &cands, true, &st.blast, in_window, partial) {
-                                Ok(t) => known = t.into_iter().collect(),
+                            // buffered WAL: everything applied in this lifetime may still be in the writer's buffer
+                            let mut may_be_lost: BTreeMap<i64, usize> = BTreeMap::new();
+                            if cfg.wal_buffered {
+                                let routes = route_of(cfg);
+                                let before: BTreeSet<i64> = p.acked_before[li][0].iter().map(|e| e.k).collect();
+                                for e in acked.iter().filter(|e| !before.contains(&e.k)) {
+                                    may_be_lost.insert(e.k, routes.get(&e.ctx).copied().unwrap_or(0));
+                                }
+                            }
+                            match classify(&o, acked, inflight.as_ref(), &cands, true, &st.blast, in_window, partial, &may_be_lost) {
+                                Ok(t) => {
+                                    known = t.into_iter().collect();
+                                    if cfg.wal_buffered && known.is_empty() {
+                                        // every deviation from the strong clause is a loss the weak clause allows
+                                        d.clear();
+                                        stats.lock().unwrap().buffered_suffix_losses += 1;
+                                    }
+                                }
                                 Err(e) => violation = Some(e),
                             }
                         }
@@ -839,8 +890,11 @@ pub fn confirm<'a>(cands: &[&'a Finding], rerun: &dyn Fn(&Finding) -> Vec<Findin
 
 pub fn configs(tier: &str) -> Vec<SysConfig> {
     let base = SysConfig::default();
+    // buffered WAL (weak crash clause): a small writer buffer, so that crash points fall
+    // between buffer flushes
+    let buffered = |size: usize, shards: usize| SysConfig { wal_buffered: true, wal_flush_each_write: false, wal_buffer_size: size, shards, ..base.clone() };
     if tier == "quick" {
-        return vec![base];
+        return vec![base.clone(), buffered(400, 1)];
     }
     let mut v = Vec::new();
     for (ff, epz) in [(2, 2), (1, 2), (2, 1)] {
@@ -850,6 +904,8 @@ pub fn configs(tier: &str) -> Vec<SysConfig> {
             }
         }
     }
+    v.push(buffered(400, 1));
+    v.push(buffered(1000, 2));
     v
 }
 
@@ -894,6 +950,10 @@ pub fn check(tier: &str) -> i32 {
             hs.extend(deep_histories());
         }
         for h in hs {
+            // with a buffered WAL a kill loses an unpredictable suffix; histories continue only after clean restarts
+            if cfg.wal_buffered && h.iter().any(|t| *t == Kill) {
+                continue;
+            }
             work.push((cfg.clone(), h));
         }
     }
@@ -1008,10 +1068,13 @@ pub fn check(tier: &str) -> i32 {
             "work_items": work.len(),
             "determinism_canary_executions": canary.len() * 2,
             "unreproduced_observations": unreproduced.len(),
+            "buffered_wal_recovery_runs": st.buffered_recoveries,
+            "buffered_wal_crash_points_with_an_allowed_suffix_loss": st.buffered_suffix_losses,
         }),
         assumptions: vec![
             "process crash model: every completed system call is kept, user-space memory is lost (no power-loss reordering)".into(),
             "'applied' = STORE answered 200 and the quiescence barrier after it returned".into(),
+            "buffered-WAL configurations (flush_each_write = false, 400 / 1000 byte writer buffer): clean restarts are judged by the strong clause; at crash points the events applied in the crashed lifetime may be lost, but only as a per-shard suffix, never duplicated or corrupted (histories with kills are not run in these configurations)".into(),
             "single-threaded tokio runtime with paused clock; entropy and wall clock pinned by libc interposition".into(),
             "COUNT is taken with a predicate on a type-private field so that the C09 defect (in-memory aggregates ignore the event type) is not reported here".into(),
             "known findings are matched by the WAL-id/segment-id protocol model in c01model.rs; anything the model does not predict is a violation".into(),
